@@ -19,7 +19,7 @@ LEVEL_TEXT = ("Every cycle-breaking and Clark-completion instance the workload p
               "the real transformation outputs, not of a model of them.")
 LEVEL_NOTE = "Trusts pbmon/ref/boolfn.py (big-int truth tables, Tarjan SCC least fixpoint) and pbmon/tv.py; instances above the atom bound are skipped."
 TECHNIQUE = "runtime translation validation of captured transformation instances (truth-table oracle over all atom assignments)"
-BUDGET = {"quick": 1500, "thorough": 30000}
+BUDGET = {"quick": 1500, "thorough": 16000}
 TIME_BUDGET = {"quick": 200, "thorough": 3000}
 CASE_TIMEOUT = 20
 WATCHDOG_FRACTION = 0.04
